@@ -140,23 +140,33 @@ var roomNames = []string{"room0@conf.example.org", "r1@conf.example.org", "loung
 
 func newEnv(t fataler, nRooms int) *env {
 	e := &env{t: t, claimed: map[int]bool{}, classes: map[string]bool{}}
-	e.client = &muc.Client{
-		HandleInvite: func(i muc.Invitation) {
-			e.mu.Lock()
-			e.invites = append(e.invites, i)
-			e.mu.Unlock()
-		},
-		HandleUserPresence: func(p stanza.Presence, _ muc.Item) {
-			e.mu.Lock()
-			e.userPres = append(e.userPres, p.From.String())
-			e.mu.Unlock()
-		},
+	handleInvite := func(i muc.Invitation) {
+		e.mu.Lock()
+		e.invites = append(e.invites, i)
+		e.mu.Unlock()
+	}
+	handleUserPresence := func(p stanza.Presence, _ muc.Item) {
+		e.mu.Lock()
+		e.userPres = append(e.userPres, p.From.String())
+		e.mu.Unlock()
+	}
+	// the callbacks are exported fields: the application may install them before
+	// or after it builds its multiplexer (they often need the session or the
+	// client itself), as long as that happens before serving
+	lateCallbacks := nRooms%2 == 0
+	e.client = &muc.Client{}
+	if !lateCallbacks {
+		e.client.HandleInvite, e.client.HandleUserPresence = handleInvite, handleUserPresence
 	}
 	var opts []mux.Option
 	opts = append(opts, muc.HandleClient(e.client))
 	var h *mux.ServeMux
 	if p := ev.Guard(func() { h = mux.New(nsClient, opts...) }); p != "" {
 		t.Fatalf("harness: mux.New: %s", p)
+	}
+	if lateCallbacks {
+		e.client.HandleInvite, e.client.HandleUserPresence = handleInvite, handleUserPresence
+		e.class("callbacks-installed-after-the-multiplexer-was-built")
 	}
 	sv, err := wire.Serve(wire.SessionOpts{}, h)
 	if err != nil {
